@@ -87,6 +87,12 @@ func fnExec(ctx *cmdContext, args map[string]any) (output respValue, err error) 
 	// process all of the queued commands, regardless if one errors
 	results := make([]any, 0, len(*ctx.cs.cmdQueue))
 	for _, cc := range *ctx.cs.cmdQueue {
+		if cc.dsc.ds != ctx.cs.ds {
+			// the command was bound to the database that was selected when it was queued; a SELECT
+			// (or a flush) earlier in this transaction has changed it: run where the connection is now
+			cc.dsc = ctx.cs.ds.newDataStoreCommand()
+		}
+
 		// use the multi command id instead of each queued command's id,
 		// so that the commands won't try to acquire a lock that we already own
 		cc.dsc.id = ctx.dsc.id
